@@ -120,7 +120,12 @@ type c16cyWorld struct {
 	apiOk     map[string]bool
 	plugCalls int
 	handles   []framework.Handle // handle identity -> profile index (profiles are built in slice order)
+	crashAt   int                // the process is killed just before attempt number crashAt of the cycle (-1: never)
+	errPhase1 bool               // the first Deschedule plugin invoked in the cycle returns an error status after its evictions
 }
+
+// c16cyCrash is the panic value that stands for the descheduler process being killed between two evictions
+type c16cyCrash struct{}
 
 func (w *c16cyWorld) profileOf(hd framework.Handle) int {
 	w.mu.Lock()
@@ -152,6 +157,8 @@ func (w *c16cyWorld) beginCycle(script [3][][]c16cySpec) {
 	w.taken = [3]int{}
 	w.attempts = nil
 	w.api = nil
+	w.crashAt = -1
+	w.errPhase1 = false
 	for ph := 1; ph <= 2; ph++ {
 		for _, seg := range script[ph] {
 			for _, s := range seg {
@@ -172,7 +179,16 @@ type c16cyActor struct {
 }
 
 func (a *c16cyActor) run(ctx context.Context) *framework.Status {
+	a.w.mu.Lock()
+	first := a.w.taken[a.phase] == 0
+	a.w.mu.Unlock()
 	for _, s := range a.w.take(a.phase) {
+		a.w.mu.Lock()
+		crash := a.w.crashAt >= 0 && len(a.w.attempts) == a.w.crashAt
+		a.w.mu.Unlock()
+		if crash {
+			panic(c16cyCrash{})
+		}
 		pod := c16cyPod(s.seq, s.node, s.ns)
 		ev := a.kept
 		if s.fresh {
@@ -185,6 +201,9 @@ func (a *c16cyActor) run(ctx context.Context) *framework.Status {
 		a.w.mu.Lock()
 		a.w.attempts = append(a.w.attempts, c16cyAttempt{spec: s, phase: a.phase, profile: a.profile, ok: ok, plugCalls: a.w.plugCalls - before})
 		a.w.mu.Unlock()
+	}
+	if a.phase == 1 && first && a.w.errPhase1 {
+		return &framework.Status{Err: fmt.Errorf("verif: scripted plugin error")}
 	}
 	return &framework.Status{}
 }
@@ -420,6 +439,9 @@ func TestVerifC16Cycle(t *testing.T) {
 		"per cycle every (profile, phase) evicts a scripted list of pods (4 node names x 3 namespaces, half on node 1/ns 0, API failures 1/6) through " +
 		"handle.Evictor() -> evict plugin -> clientset pods/eviction; 3/4 of the cycles (when a positive cap exists) give the Deschedule and the Balance " +
 		"phase enough healthy pods on node 1/ns 0 to reach the caps in each phase / across the two phases. " +
+		"1/6 of the cycles are cut short by a process kill between two evictions, followed by a restart (new Descheduler, new limiter, new informers over the same " +
+		"API server; the killed cycle and every later cycle are checked on their own, the sum over the kill is only tagged); in 1/10 the first Deschedule plugin " +
+		"returns an error status, which ends the cycle before the Balance phase. " +
 		"Non-trivial = some cycle issued evictions in both phases and refused at least one eviction")
 }
 
@@ -445,8 +467,7 @@ func c16cyCase(h *vHarness, r *vRand) {
 		}
 	}
 
-	w := &c16cyWorld{apiOk: map[string]bool{}}
-	el := evictions.NewEvictionLimiter(c16cyPtr(capNode), c16cyPtr(capNs), c16cyPtr(capTotal))
+	w := &c16cyWorld{apiOk: map[string]bool{}, crashAt: -1}
 
 	// fake API server: 3 ready nodes + the record of eviction requests
 	var objs []k8sruntime.Object
@@ -500,22 +521,38 @@ func c16cyCase(h *vHarness, r *vRand) {
 		})
 	}
 
-	informerFactory := informers.NewSharedInformerFactory(cs, 0)
-	stop := make(chan struct{})
-	defer close(stop)
-	d, err := New(cs, informerFactory, nil, func(string) events.EventRecorder { return &events.FakeRecorder{} }, stop,
-		WithEvictionLimiter(el), WithDryRun(dry), WithProfiles(profiles...), WithFrameworkOutOfTreeRegistry(reg))
-	if err != nil {
-		panic(fmt.Sprintf("c16cy: descheduler.New: %v", err))
+	// (re)start of the descheduler process: a new Descheduler with a new EvictionLimiter (as cmd/koord-descheduler builds
+	// them) and new informers over the SAME API server
+	var stops []chan struct{}
+	defer func() {
+		for _, c := range stops {
+			close(c)
+		}
+	}()
+	build := func() (*Descheduler, *evictions.EvictionLimiter) {
+		w.mu.Lock()
+		w.handles = nil
+		w.mu.Unlock()
+		el := evictions.NewEvictionLimiter(c16cyPtr(capNode), c16cyPtr(capNs), c16cyPtr(capTotal))
+		informerFactory := informers.NewSharedInformerFactory(cs, 0)
+		stop := make(chan struct{})
+		stops = append(stops, stop)
+		d, err := New(cs, informerFactory, nil, func(string) events.EventRecorder { return &events.FakeRecorder{} }, stop,
+			WithEvictionLimiter(el), WithDryRun(dry), WithProfiles(profiles...), WithFrameworkOutOfTreeRegistry(reg))
+		if err != nil {
+			panic(fmt.Sprintf("c16cy: descheduler.New: %v", err))
+		}
+		if len(d.Profiles) != nprof {
+			panic(fmt.Sprintf("c16cy: %d profiles built, want %d", len(d.Profiles), nprof))
+		}
+		informerFactory.Start(stop)
+		c16cyWaitSynced(informerFactory, stop)
+		if nodes, _ := d.nodeInformer.Lister().List(labels.Everything()); len(nodes) != c16cyNodes {
+			panic(fmt.Sprintf("c16cy: node informer has %d nodes, want %d", len(nodes), c16cyNodes))
+		}
+		return d, el
 	}
-	if len(d.Profiles) != nprof {
-		panic(fmt.Sprintf("c16cy: %d profiles built, want %d", len(d.Profiles), nprof))
-	}
-	informerFactory.Start(stop)
-	c16cyWaitSynced(informerFactory, stop)
-	if nodes, _ := d.nodeInformer.Lister().List(labels.Everything()); len(nodes) != c16cyNodes {
-		panic(fmt.Sprintf("c16cy: node informer has %d nodes, want %d", len(nodes), c16cyNodes))
-	}
+	d, el := build()
 
 	h.Op("cy %d %d %d %d", vB(dry), capNode, capNs, capTotal)
 	h.Tag(fmt.Sprintf("profiles=%d", nprof))
@@ -524,12 +561,38 @@ func c16cyCase(h *vHarness, r *vRand) {
 	seq := 0
 	cycles := r.Range(2, 5)
 	h.Tag(fmt.Sprintf("cycles=%d", cycles))
+	var prev *c16cyTally // evictions issued by a cycle that was cut short by a process kill, until the next cycle has run
 	for c := 0; c < cycles; c++ {
 		script, mode := c16cyGenCycle(r, nprof, bind, mx, &seq)
 		h.Tag(fmt.Sprintf("cyc:mode=%d", mode))
 		w.beginCycle(script)
+		// 1/6 of the cycles: the process is killed in the middle of the cycle (between two evictions) and restarted;
+		// 1/10: the first Deschedule plugin reports an error, which ends the cycle before the Balance phase
+		scripted := 0
+		for ph := 1; ph <= 2; ph++ {
+			for _, seg := range script[ph] {
+				scripted += len(seg)
+			}
+		}
+		if scripted >= 2 && r.Chance(1, 6) {
+			w.crashAt = r.Range(1, scripted-1)
+		} else if r.Chance(1, 10) {
+			w.errPhase1 = true
+		}
+		wantErr := w.errPhase1
 		var cerr error
-		panicked := h.Guard(func() { cerr = d.deschedulerOnce(context.TODO()) })
+		crashed := false
+		panicked := h.Guard(func() {
+			defer func() {
+				if x := recover(); x != nil {
+					if _, ok := x.(c16cyCrash); !ok {
+						panic(x)
+					}
+					crashed = true
+				}
+			}()
+			cerr = d.deschedulerOnce(context.TODO())
+		})
 
 		w.mu.Lock()
 		attempts := append([]c16cyAttempt(nil), w.attempts...)
@@ -580,8 +643,11 @@ func c16cyCase(h *vHarness, r *vRand) {
 
 		// ---- oracle (from the API record and the script only)
 		nfails := len(h.fails)
-		if cerr != nil {
+		if cerr != nil && !wantErr {
 			h.Fail("C16:cycle-error", "deschedulerOnce returned an error in cycle %d: %v", c, cerr)
+		}
+		if wantErr {
+			h.Tag(fmt.Sprintf("cyc:plugin-error,returned=%d,balance-ran=%d", vB(cerr != nil), vB(n2 > 0)))
 		}
 		tl, p1, p2 := c16cyNewTally(), c16cyNewTally(), c16cyNewTally()
 		refused := 0
@@ -637,6 +703,26 @@ func c16cyCase(h *vHarness, r *vRand) {
 
 		if len(h.fails) > nfails {
 			return // keep the failing history short: later cycles of this case add nothing
+		}
+		// informational (no property clause: the caps are per cycle, and a restarted process starts a new cycle with a
+		// new limiter): evictions of a killed cycle + the first cycle after the restart, against the caps
+		if prev != nil {
+			over := (capTotal >= 0 && prev.total+tl.total > capTotal)
+			for k, v := range tl.node {
+				over = over || (capNode >= 0 && prev.node[k]+v > capNode)
+			}
+			for k, v := range tl.ns {
+				over = over || (capNs >= 0 && prev.ns[k]+v > capNs)
+			}
+			h.Tag(fmt.Sprintf("restart:killed-cycle+next-cycle-over-cap=%d", vB(over)))
+			prev = nil
+		}
+		if crashed {
+			h.Tag(fmt.Sprintf("cyc:killed-after=%s", c16cyBucket(len(attempts))))
+			prev = tl
+			d, el = build()
+			h.Op("cy %d %d %d %d", vB(dry), capNode, capNs, capTotal)
+			h.Tag("op:restart")
 		}
 
 		// ---- distribution
